@@ -100,6 +100,9 @@ class C13(PipelineCheck):
             h = {'op': handler}
             if handler == 'error_map':
                 h['value'] = {'rec': 'rec', 'int': -1, 'list': []}[ot]
+                if rng.random() < 0.2:
+                    h['value'] = 'same'      # the mapper hands back the very exception object it received
+                    ot = 'any'
             inner.append(h)
             if rng.random() < 0.7:
                 st = St(ot, True)
@@ -255,6 +258,9 @@ class C13(PipelineCheck):
             exp_h = []
             for _, s, k, key, v in ctx.taps.get(out_tap, []):
                 if k == 'E':
+                    if val == 'same':
+                        exp_h.append((s, 'N', key, v))
+                        continue
                     mv = F.Rec(v[2][1], v[2][2], -1, 0, False) if val == 'rec' else val
                     exp_h.append((s, 'N', key, canon(mv)))
                 else:
